@@ -29,6 +29,27 @@ package obiformats
 //   CSV (n>=1)   encoding/csv gives exactly one header row then one row per record in order;
 //   close        when obiiter.WaitForLastPipe() returns (what every obitools main waits for before
 //                exiting) the sink has been closed exactly once and nothing was written after it.
+//
+// Audit extensions (same oracle, further dimensions; each is a "family" of replayable cases):
+//
+//   modes     every writer also runs without closing (OptionDontCloseFile: stdout mode) plain and
+//             through gzip: all the bytes must have reached the sink when WaitForLastPipe returns;
+//   csv-auto  the records of batch i carry an attribute k<i>: the header must be the one of batch
+//             number 0 (not of the first batch to arrive) and every row must have its width;
+//   file      the file-name entry points Write{Fasta,Fastq,JSON,CSV,Sequences}ToFile on real files:
+//             fresh file / existing longer file (overwritten) / OptionsAppendFile on an existing file
+//             x single / paired output (WritePairedReadsTo: mates m0.. in the second file, same
+//             rank, both complete) x every arrival history; both files complete and no descriptor
+//             left open on them when WaitForLastPipe returns;
+//   zerolen   every subset of records with a zero-length sequence x OptionsSkipEmptySequence (FASTA /
+//             FASTQ: the record is left out, a batch of such records gives an empty chunk; JSON / CSV:
+//             the record is emitted) x every arrival history;
+//   content   annotation values / annotation keys / definitions / ids made of every string of up to
+//             k tokens that need escaping (quote, backslash, "u", hex digits, control characters,
+//             newline, separators, html characters, non-ascii) through WriteJSON and WriteCSV;
+//   csvopt    every combination of the CSV column options (id, count, taxon, definition, sequence,
+//             quality) x key lists (present / missing attributes) x NA values: the header is the
+//             declared one and every row has exactly its number of fields.
 
 import (
 	"bytes"
@@ -37,12 +58,15 @@ import (
 	stdjson "encoding/json"
 	"fmt"
 	"io"
+	"os"
+	"path/filepath"
 	"runtime"
 	"sort"
 	"strings"
 	"sync"
 	"testing"
 	"time"
+	"unicode/utf8"
 
 	"git.metabarcoding.org/obitools/obitools4/obitools4/pkg/obiiter"
 	"git.metabarcoding.org/obitools/obitools4/obitools4/pkg/obiseq"
@@ -56,6 +80,40 @@ type c04case struct {
 	Writer  string `json:"writer"`  // fasta | fastq | json | csv | sequence | sequence+q (WriteSequence dispatcher, records without / with qualities)
 	Arrival []int  `json:"arrival"` // batch numbers in the order they reach the writer goroutine
 	Sizes   []int  `json:"sizes"`   // Sizes[i] = number of records of batch number i (0 = empty batch)
+
+	// audit extensions; the zero values give the original family (arrival histories on a sink)
+	Family  string      `json:"family,omitempty"`  // "" | file | zerolen | content | csvopt
+	Mode    string      `json:"mode,omitempty"`    // replay: run this mode only
+	Zero    []int       `json:"zero,omitempty"`    // zerolen: Zero[r]=1 -> record r has a zero-length sequence
+	Skip    bool        `json:"skip,omitempty"`    // OptionsSkipEmptySequence(true)
+	Value   string      `json:"value,omitempty"`   // content: the string needing escapes
+	Place   string      `json:"place,omitempty"`   // content: value | key | definition | id
+	Pre     string      `json:"pre,omitempty"`     // file: fresh | overwrite | append
+	Paired  bool        `json:"paired,omitempty"`  // file: paired records, WritePairedReadsTo
+	Workers int         `json:"workers,omitempty"` // file: formatting workers (0 = 1); above 1 the arrival order is left to the Go scheduler
+	Csv     *c04csvSpec `json:"csv,omitempty"`     // csvopt
+}
+
+type c04csvSpec struct {
+	Id         bool     `json:"id"`
+	Count      bool     `json:"count"`
+	Taxon      bool     `json:"taxon"`
+	Definition bool     `json:"definition"`
+	Sequence   bool     `json:"sequence"`
+	Quality    bool     `json:"quality"`
+	Keys       []string `json:"keys"`
+	NA         string   `json:"na"`
+}
+
+func (c c04case) zero(r int) bool { return r < len(c.Zero) && c.Zero[r] != 0 }
+
+// c04firstRecord gives the index of the first record of batch number b.
+func (c c04case) firstRecord(b int) int {
+	r := 0
+	for i := 0; i < b; i++ {
+		r += c.Sizes[i]
+	}
+	return r
 }
 
 var c04writers = []string{"fasta", "fastq", "json", "csv", "csv-auto", "sequence", "sequence+q"}
@@ -67,7 +125,8 @@ func c04format(c c04case) string {
 	case "sequence":
 		return "fasta"
 	case "sequence+q":
-		if len(c.Arrival) > 0 && c.Sizes[c.Arrival[0]] > 0 {
+		// (a zero-length record has no qualities)
+		if len(c.Arrival) > 0 && c.Sizes[c.Arrival[0]] > 0 && !c.zero(c.firstRecord(c.Arrival[0])) {
 			return "fastq"
 		}
 		return "fasta"
@@ -136,25 +195,84 @@ func c04installExit() {
 
 var c04bases = []string{"acgt", "ttgca", "gattaca", "cc", "atatatat", "g", "tgca", "caggt", "aac", "ggtt", "acacgt", "t", "cgcg", "tagc"}
 
-func c04id(r int) string { return fmt.Sprintf("r%d", r) }
+func c04id(r int) string     { return fmt.Sprintf("r%d", r) }
+func c04mateId(r int) string { return fmt.Sprintf("m%d", r) }
 
-// c04batches builds fresh batches: batch number i holds Sizes[i] records, ids r0.. in batch order.
-func c04batches(c c04case) (batches []obiiter.BioSequenceBatch, ids []string) {
+// c04recId is the identifier of record r (family content, place id: the value is part of it).
+func c04recId(c c04case, r int) string {
+	if c.Family == "content" && c.Place == "id" {
+		return c04id(r) + c.Value
+	}
+	return c04id(r)
+}
+
+func c04qual(n, r int) []byte {
+	q := make([]byte, n)
+	for x := range q {
+		q[x] = byte(10 + (r+x)%30)
+	}
+	return q
+}
+
+// c04batches builds fresh batches: batch number i holds Sizes[i] records, ids r0.. in batch order
+// (and, for paired cases, their mates m0..).
+func c04batches(c c04case) (batches []obiiter.BioSequenceBatch, ids []string, mateIds []string) {
 	r := 0
+	withQual := c.Writer == "fastq" || c.Writer == "sequence+q"
 	for i, sz := range c.Sizes {
 		sl := make(obiseq.BioSequenceSlice, 0, sz)
 		for j := 0; j < sz; j++ {
 			s := c04bases[r%len(c04bases)]
-			seq := obiseq.NewBioSequence(c04id(r), []byte(s), "")
-			if c.Writer == "fastq" || c.Writer == "sequence+q" {
-				q := make([]byte, len(s))
-				for x := range q {
-					q[x] = byte(10 + (r+x)%30)
+			if c.zero(r) {
+				s = ""
+			}
+			def := ""
+			if c.Family == "content" && c.Place == "definition" {
+				def = c.Value
+			}
+			if c.Family == "csvopt" && r%3 != 1 {
+				def = fmt.Sprintf("record %d, so to say", r)
+			}
+			seq := obiseq.NewBioSequence(c04recId(c, r), []byte(s), def)
+			if withQual || (c.Family == "csvopt" && r%2 == 0) {
+				seq.SetQualities(c04qual(len(s), r))
+			}
+			switch {
+			case c.Writer == "csv-auto":
+				// the attribute columns differ from batch to batch: batch i has c and k<i>
+				seq.SetAttribute("c", r)
+				seq.SetAttribute(fmt.Sprintf("k%d", i), i)
+			case c.Family == "content" && c.Place == "value":
+				seq.SetAttribute("k", c.Value)
+			case c.Family == "content" && c.Place == "key":
+				seq.SetAttribute(c.Value, "v")
+			case c.Family == "csvopt":
+				switch r % 3 {
+				case 0:
+					seq.SetTaxid(9606)
+					seq.SetAttribute("scientific_name", "Homo sapiens")
+				case 1:
+					seq.SetTaxid(7)
 				}
-				seq.SetQualities(q)
+				if r%2 == 1 {
+					seq.SetCount(3 + r)
+				}
+				if r%2 == 0 {
+					seq.SetAttribute("k1", fmt.Sprintf("v%d", r))
+				}
+				seq.SetAttribute("k,2", r)
+			}
+			if c.Paired {
+				ms := "tt" + c04bases[(r+3)%len(c04bases)]
+				mate := obiseq.NewBioSequence(c04mateId(r), []byte(ms), "")
+				if withQual {
+					mate.SetQualities(c04qual(len(ms), r+1))
+				}
+				seq.PairTo(mate)
 			}
 			sl = append(sl, seq)
-			ids = append(ids, c04id(r))
+			ids = append(ids, c04recId(c, r))
+			mateIds = append(mateIds, c04mateId(r))
 			r++
 		}
 		batches = append(batches, obiiter.MakeBioSequenceBatch("c04", i, sl))
@@ -162,28 +280,123 @@ func c04batches(c c04case) (batches []obiiter.BioSequenceBatch, ids []string) {
 	return
 }
 
+// c04caseOpts: the content-related options of the case (used by the run and by the reference).
+func c04caseOpts(c c04case) []WithOption {
+	var o []WithOption
+	if c.Skip {
+		o = append(o, OptionsSkipEmptySequence(true))
+	}
+	switch c.Family {
+	case "content":
+		if c.Writer == "csv" {
+			switch c.Place {
+			case "value":
+				o = append(o, CSVKeys([]string{"k"}))
+			case "key":
+				o = append(o, CSVKeys([]string{c.Value}))
+			case "definition":
+				o = append(o, CSVDefinition(true))
+			}
+		}
+	case "csvopt":
+		sp := c.Csv
+		o = append(o, CSVId(sp.Id), CSVCount(sp.Count), CSVTaxon(sp.Taxon), CSVDefinition(sp.Definition),
+			CSVSequence(sp.Sequence), CSVQuality(sp.Quality), CSVKeys(append([]string{}, sp.Keys...)), CSVNAValue(sp.NA))
+	}
+	return o
+}
+
+// c04csvModelHeader: the declared columns, written down independently of CSVHeader.
+func c04csvModelHeader(c c04case) []string {
+	sp := c04csvSpec{Id: true, Sequence: true}
+	switch c.Family {
+	case "content":
+		switch c.Place {
+		case "value":
+			sp.Keys = []string{"k"}
+		case "key":
+			sp.Keys = []string{c.Value}
+		case "definition":
+			sp.Definition = true
+		}
+	case "csvopt":
+		sp = *c.Csv
+	}
+	h := []string{}
+	if sp.Id {
+		h = append(h, "id")
+	}
+	if sp.Count {
+		h = append(h, "count")
+	}
+	if sp.Taxon {
+		h = append(h, "taxid", "scientific_name")
+	}
+	if sp.Definition {
+		h = append(h, "definition")
+	}
+	h = append(h, sp.Keys...)
+	if sp.Sequence {
+		h = append(h, "sequence")
+	}
+	if sp.Quality {
+		h = append(h, "quality")
+	}
+	return h
+}
+
 // ---------------------------------------------------------------- running the real writer
 
 const (
-	c04plain   = "plain"
-	c04gzip    = "gzip"
-	c04noclose = "stdout-mode"
+	c04plain     = "plain"
+	c04gzip      = "gzip"
+	c04noclose   = "stdout-mode"
+	c04gznoclose = "gzip+stdout-mode"
 )
+
+func c04closing(mode string) bool    { return mode == c04plain || mode == c04gzip }
+func c04compressed(mode string) bool { return mode == c04gzip || mode == c04gznoclose }
+
+// c04await waits for the run. Hang detection must not depend on one wall-clock reading (the sandbox
+// clock can jump while the process is frozen): a hang is declared only after 1200 separate 50 ms
+// sleeps, each of which this process really had to sit through, all ended without the run finishing.
+func c04await(done chan struct{}) (problem string) {
+	finished := false
+	for tick := 0; tick < 1200 && !finished; tick++ {
+		select {
+		case <-done:
+			finished = true
+		case f := <-c04fatalCh:
+			return "fatal:" + f
+		case <-time.After(50 * time.Millisecond):
+		}
+	}
+	if !finished {
+		return "hang"
+	}
+	select { // a fatal in a goroutine that did not prevent termination
+	case f := <-c04fatalCh:
+		return "fatal:" + f
+	default:
+	}
+	return ""
+}
 
 // c04run pushes the batches of c in arrival order through the real writer and returns what the
 // sink saw at the time WaitForLastPipe returned. problem != "" : hang / fatal (run unusable).
 func c04run(c c04case, mode string) (obs c04obs, problem string) {
-	batches, _ := c04batches(c)
+	batches, _, _ := c04batches(c)
 	sink := &c04sink{}
 	opts := []WithOption{OptionsParallelWorkers(1)}
-	if mode == c04noclose {
-		opts = append(opts, OptionDontCloseFile())
-	} else {
+	if c04closing(mode) {
 		opts = append(opts, OptionCloseFile())
+	} else {
+		opts = append(opts, OptionDontCloseFile())
 	}
-	if mode == c04gzip {
+	if c04compressed(mode) {
 		opts = append(opts, OptionsCompressed(true))
 	}
+	opts = append(opts, c04caseOpts(c)...)
 
 	done := make(chan struct{})
 	go func() {
@@ -255,31 +468,144 @@ func c04run(c c04case, mode string) (obs c04obs, problem string) {
 		close(done)
 	}()
 
-	// Hang detection must not depend on one wall-clock reading (the sandbox clock can jump while
-	// the process is frozen): a hang is declared only after 1200 separate 50 ms sleeps, each of
-	// which this process really had to sit through, all ended without the run finishing.
-	finished := false
-	for tick := 0; tick < 1200 && !finished; tick++ {
-		select {
-		case <-done:
-			finished = true
-		case f := <-c04fatalCh:
-			return obs, "fatal:" + f
-		case <-time.After(50 * time.Millisecond):
-		}
-	}
-	if !finished {
-		return obs, "hang"
-	}
-	select { // a fatal in a goroutine that did not prevent termination
-	case f := <-c04fatalCh:
-		return obs, "fatal:" + f
-	default:
+	if problem = c04await(done); problem != "" {
+		return obs, problem
 	}
 	sink.mu.Lock()
 	defer sink.mu.Unlock()
 	obs = c04obs{out: append([]byte{}, sink.buf.Bytes()...), closes: sink.closes,
 		bytesAfterClose: sink.bytesAfterClose, lenAtFirstClose: sink.lenAtFirstClose}
+	return obs, ""
+}
+
+// ---------------------------------------------------------------- file-name entry points
+
+var (
+	c04tmpDir  string
+	c04fileSeq int
+	c04stale   = bytes.Repeat([]byte("#STALE#\n"), 512) // 4 KiB: longer than any output of the family
+)
+
+func c04entryName(w string) string {
+	return map[string]string{"fasta": "WriteFastaToFile", "fastq": "WriteFastqToFile", "json": "WriteJSONToFile",
+		"csv": "WriteCSVToFile", "sequence": "WriteSequencesToFile", "sequence+q": "WriteSequencesToFile"}[w]
+}
+
+// c04openOn counts the descriptors of this process that are open on one of the paths.
+func c04openOn(paths ...string) int {
+	n := 0
+	ents, err := os.ReadDir("/proc/self/fd")
+	if err != nil {
+		return 0
+	}
+	for _, e := range ents {
+		l, err := os.Readlink("/proc/self/fd/" + e.Name())
+		if err != nil {
+			continue
+		}
+		for _, p := range paths {
+			if l == p {
+				n++
+			}
+		}
+	}
+	return n
+}
+
+type c04fileObs struct {
+	r1, r2   []byte
+	r2exists bool
+	open     int
+}
+
+// c04runFile drives Write*ToFile on real files: Pre = fresh (no file), overwrite (an existing,
+// longer file), append (OptionsAppendFile on an existing file); Paired: WritePairedReadsTo.
+func c04runFile(c c04case) (obs c04fileObs, problem string) {
+	if c04tmpDir == "" {
+		d, err := os.MkdirTemp("", "verif-c04-")
+		if err != nil {
+			panic(err)
+		}
+		if d, err = filepath.EvalSymlinks(d); err != nil {
+			panic(err)
+		}
+		c04tmpDir = d
+	}
+	c04fileSeq++
+	fn1 := filepath.Join(c04tmpDir, fmt.Sprintf("o%d_R1.out", c04fileSeq))
+	fn2 := filepath.Join(c04tmpDir, fmt.Sprintf("o%d_R2.out", c04fileSeq))
+	defer os.Remove(fn1)
+	defer os.Remove(fn2)
+	if c.Pre != "fresh" {
+		for _, fn := range []string{fn1, fn2} {
+			if err := os.WriteFile(fn, c04stale, 0o644); err != nil {
+				panic(err)
+			}
+		}
+	}
+	batches, _, _ := c04batches(c)
+	workers := 1
+	if c.Workers > 1 {
+		workers = c.Workers
+	}
+	opts := []WithOption{OptionsParallelWorkers(workers), OptionsAppendFile(c.Pre == "append")}
+	if c.Paired {
+		opts = append(opts, WritePairedReadsTo(fn2))
+	}
+	opts = append(opts, c04caseOpts(c)...)
+
+	done := make(chan struct{})
+	go func() {
+		it := obiiter.MakeIBioSequence()
+		it.Add(1)
+		go it.WaitAndClose()
+		if c.Paired {
+			it.MarkAsPaired()
+		}
+		// WriteSequencesToFile blocks on the first batch: one feeder goroutine for every entry point
+		// (ONE pusher, one formatting worker per writer: the arrival order is the push order, for
+		// the second writer of a paired output as well)
+		go func() {
+			for _, o := range c.Arrival {
+				it.Push(batches[o])
+			}
+			it.Done()
+		}()
+		var out obiiter.IBioSequence
+		var err error
+		switch c.Writer {
+		case "fasta":
+			out, err = WriteFastaToFile(it, fn1, opts...)
+		case "fastq":
+			out, err = WriteFastqToFile(it, fn1, opts...)
+		case "json":
+			out, err = WriteJSONToFile(it, fn1, opts...)
+		case "csv":
+			out, err = WriteCSVToFile(it, fn1, opts...)
+		case "sequence", "sequence+q":
+			out, err = WriteSequencesToFile(it, fn1, opts...)
+		default:
+			panic("c04: no file entry point for " + c.Writer)
+		}
+		if err != nil {
+			panic(err)
+		}
+		for out.Next() {
+		}
+		obiiter.WaitForLastPipe()
+		close(done)
+	}()
+	if problem = c04await(done); problem != "" {
+		return obs, problem
+	}
+	obs.open = c04openOn(fn1, fn2)
+	var err error
+	if obs.r1, err = os.ReadFile(fn1); err != nil {
+		panic(err)
+	}
+	if obs.r2, err = os.ReadFile(fn2); err == nil {
+		obs.r2exists = true
+	}
 	return obs, ""
 }
 
@@ -324,14 +650,30 @@ func c04seqDiag(got, want []string) string {
 }
 
 // c04fastaIds / c04fastqIds: boring independent readers of the ids.
-func c04fastaIds(text []byte) []string {
+func c04fastaIds(text []byte) ([]string, bool) {
 	ids := []string{}
-	for _, l := range strings.Split(string(text), "\n") {
-		if strings.HasPrefix(l, ">") {
+	if len(text) == 0 {
+		return ids, true
+	}
+	if text[len(text)-1] != '\n' {
+		return nil, false
+	}
+	lines := strings.Split(string(text[:len(text)-1]), "\n")
+	for i, l := range lines {
+		switch {
+		case l == "":
+			return nil, false // blank line
+		case l[0] == '>':
+			// a title line is followed by at least one line of sequence
+			if i+1 >= len(lines) || lines[i+1] == "" || lines[i+1][0] == '>' {
+				return nil, false
+			}
 			ids = append(ids, strings.SplitN(l[1:], " ", 2)[0])
+		case i == 0:
+			return nil, false // sequence before the first title line
 		}
 	}
-	return ids
+	return ids, true
 }
 
 func c04fastqIds(text []byte) ([]string, bool) {
@@ -355,30 +697,83 @@ func c04fastqIds(text []byte) ([]string, bool) {
 	return ids, true
 }
 
+func c04sameRow(a, b []string) bool {
+	if len(a) != len(b) {
+		return false
+	}
+	for i := range a {
+		if a[i] != b[i] {
+			return false
+		}
+	}
+	return true
+}
+
 // c04content checks the decoded text against the property; returns (failure class, detail).
-func c04content(c c04case, text []byte) (string, string) {
-	batches, want := c04batches(c)
-	format := c04format(c)
+// mate: the text is the second file of a paired output (the mates m0.. of the records).
+func c04content(c c04case, text []byte, mate bool) (string, string) {
+	formats := []string{c04format(c)}
+	if mate && c.Workers > 1 && c.Writer == "sequence+q" {
+		// the second WriteSequence of a paired output reads what the formatting workers of the first
+		// one hand over: with several workers ANY batch can be the first it sees, and an empty one
+		// makes it choose FASTA. Which format is chosen is not the business of this property.
+		formats = []string{"fastq"}
+		for _, sz := range c.Sizes {
+			if sz == 0 {
+				formats = []string{"fastq", "fasta"}
+			}
+		}
+	}
+	var f0, d0 string
+	for i, format := range formats {
+		f, d := c04contentAs(c, text, mate, format)
+		if f == "" {
+			return "", ""
+		}
+		if i == 0 {
+			f0, d0 = f, d
+		}
+	}
+	return f0, d0
+}
+
+func c04contentAs(c c04case, text []byte, mate bool, format string) (string, string) {
+	batches, want, mateIds := c04batches(c)
+	if mate {
+		want = mateIds
+		for i := range batches {
+			batches[i] = batches[i].PairedWith()
+		}
+	}
 	switch format {
 	case "fasta", "fastq":
+		if len(c.Zero) > 0 { // a zero-length record is left out (OptionsSkipEmptySequence)
+			kept := []string{}
+			for r, id := range want {
+				if !c.zero(r) {
+					kept = append(kept, id)
+				}
+			}
+			want = kept
+		}
 		var ref bytes.Buffer
 		opt := MakeOptions(nil)
 		for _, b := range batches { // increasing batch number
 			if format == "fasta" {
-				ref.Write(FormatFastaBatch(b, opt.FormatFastSeqHeader(), false).Bytes())
+				ref.Write(FormatFastaBatch(b, opt.FormatFastSeqHeader(), c.Skip).Bytes())
 			} else {
-				ref.Write(FormatFastqBatch(b, opt.FormatFastSeqHeader(), false).Bytes())
+				ref.Write(FormatFastqBatch(b, opt.FormatFastSeqHeader(), c.Skip).Bytes())
 			}
 		}
 		var got []string
 		ok := true
 		if format == "fasta" {
-			got = c04fastaIds(text)
+			got, ok = c04fastaIds(text)
 		} else {
 			got, ok = c04fastqIds(text)
 		}
 		if !ok {
-			return "malformed-fastq", fmt.Sprintf("output %q", text)
+			return "malformed-" + format, fmt.Sprintf("output %q", text)
 		}
 		if d := c04seqDiag(got, want); d != "" {
 			return d, fmt.Sprintf("ids in output %v want %v", got, want)
@@ -405,14 +800,15 @@ func c04content(c c04case, text []byte) (string, string) {
 			got = append(got, id)
 		}
 		if d := c04seqDiag(got, want); d != "" {
-			return d, fmt.Sprintf("ids in array %v want %v", got, want)
+			return d, fmt.Sprintf("ids in array %q want %q", got, want)
 		}
 	case "csv-auto":
 		if len(c.Sizes) == 0 {
 			return "", ""
 		}
-		// which attribute columns the header holds is not constrained; one header line (holding the id
-		// column), then one row per record in order
+		// one header line, then one row per record in order. The attribute columns are those of batch
+		// number 0, whatever the batch that arrives first (when batch 0 is empty: no attribute column,
+		// or those of the first non-empty batch in batch order - both are functions of the input)
 		rd := csv.NewReader(bytes.NewReader(text))
 		rd.FieldsPerRecord = -1
 		rows, err := rd.ReadAll()
@@ -430,13 +826,34 @@ func c04content(c c04case, text []byte) (string, string) {
 		if len(rows) == 0 || idcol < 0 {
 			return "header-missing", fmt.Sprintf("first row is not a header; output %q", c04clip(text))
 		}
+		if !mate {
+			allowed := [][]string{}
+			if c.Sizes[0] > 0 {
+				allowed = append(allowed, []string{"id", "c", "k0", "sequence"})
+			} else {
+				allowed = append(allowed, []string{"id", "sequence"})
+				for i, sz := range c.Sizes {
+					if sz > 0 {
+						allowed = append(allowed, []string{"id", "c", fmt.Sprintf("k%d", i), "sequence"})
+						break
+					}
+				}
+			}
+			okh := false
+			for _, a := range allowed {
+				okh = okh || c04sameRow(rows[0], a)
+			}
+			if !okh {
+				return "header-not-from-batch-0", fmt.Sprintf("header %v, want %v; output %q", rows[0], allowed, c04clip(text))
+			}
+		}
 		got := []string{}
 		for _, row := range rows[1:] {
-			if strings.Join(row, ",") == strings.Join(rows[0], ",") {
+			if c04sameRow(row, rows[0]) {
 				return "header-repeated", fmt.Sprintf("output %q", c04clip(text))
 			}
 			if len(row) != len(rows[0]) {
-				return "invalid-csv", fmt.Sprintf("row %v has %d fields, header has %d", row, len(row), len(rows[0]))
+				return "row-width", fmt.Sprintf("row %v has %d fields, header has %d", row, len(row), len(rows[0]))
 			}
 			got = append(got, row[idcol])
 		}
@@ -453,39 +870,47 @@ func c04content(c c04case, text []byte) (string, string) {
 		if err != nil {
 			return "invalid-csv", fmt.Sprintf("%v; output %q", err, c04clip(text))
 		}
-		header := CSVHeader(MakeOptions(nil))
-		idcol := -1
+		header := c04csvModelHeader(c)
+		// the column that identifies the record: id, else sequence, else none (rows are counted)
+		idcol, seqcol := -1, -1
 		for i, h := range header {
-			if h == "id" {
+			if h == "id" && idcol < 0 {
 				idcol = i
 			}
-		}
-		isHeader := func(row []string) bool {
-			if len(row) != len(header) {
-				return false
+			if h == "sequence" {
+				seqcol = i
 			}
-			for i := range row {
-				if row[i] != header[i] {
-					return false
+		}
+		if idcol < 0 && seqcol >= 0 {
+			idcol = seqcol
+			for r := range want {
+				want[r] = c04bases[r%len(c04bases)]
+				if c.zero(r) {
+					want[r] = ""
 				}
 			}
-			return true
 		}
-		if len(rows) == 0 || !isHeader(rows[0]) {
-			return "header-missing", fmt.Sprintf("first row is not the header; output %q", c04clip(text))
+		if len(rows) == 0 || !c04sameRow(rows[0], header) {
+			return "header-missing", fmt.Sprintf("first row is not the declared header %q; output %q", header, c04clip(text))
 		}
 		got := []string{}
 		for _, row := range rows[1:] {
-			if isHeader(row) {
+			if c04sameRow(row, header) {
 				return "header-repeated", fmt.Sprintf("output %q", c04clip(text))
 			}
 			if len(row) != len(header) {
-				return "invalid-csv", fmt.Sprintf("row %v has %d fields, header has %d", row, len(row), len(header))
+				return "row-width", fmt.Sprintf("row %q has %d fields, header %q has %d", row, len(row), header, len(header))
 			}
-			got = append(got, row[idcol])
+			if idcol >= 0 {
+				got = append(got, row[idcol])
+			}
 		}
-		if d := c04seqDiag(got, want); d != "" {
-			return d, fmt.Sprintf("ids in rows %v want %v", got, want)
+		if idcol < 0 {
+			if len(rows)-1 != len(want) {
+				return "records-missing", fmt.Sprintf("%d rows for %d records; output %q", len(rows)-1, len(want), c04clip(text))
+			}
+		} else if d := c04seqDiag(got, want); d != "" {
+			return d, fmt.Sprintf("identifying column of the rows %q want %q", got, want)
 		}
 	}
 	return "", ""
@@ -513,7 +938,7 @@ func c04check(c c04case, mode string) (fails [][2]string, problem string) {
 		return nil, ""
 	}
 	text := obs.out
-	if mode == c04gzip {
+	if c04compressed(mode) {
 		zr, err := stdgzip.NewReader(bytes.NewReader(obs.out))
 		if err != nil {
 			fails = append(fails, [2]string{"gzip-stream-invalid", fmt.Sprintf("%v (%d bytes)", err, len(obs.out))})
@@ -529,11 +954,11 @@ func c04check(c c04case, mode string) (fails [][2]string, problem string) {
 		}
 	}
 	if len(fails) == 0 {
-		if f, d := c04content(c, text); f != "" {
+		if f, d := c04content(c, text, false); f != "" {
 			fails = append(fails, [2]string{f, d})
 		}
 	}
-	if mode != c04noclose {
+	if c04closing(mode) {
 		switch {
 		case obs.closes == 0:
 			fails = append(fails, [2]string{"not-closed", "output not closed when WaitForLastPipe returned"})
@@ -545,6 +970,127 @@ func c04check(c c04case, mode string) (fails [][2]string, problem string) {
 		}
 	}
 	return fails, ""
+}
+
+// c04checkFile evaluates one run of a file-name entry point. A failure is (class, detail, scope):
+// scope "file" = it depends on the state of the file before the run, "history" = on the arrival,
+// "any" = on neither.
+func c04checkFile(c c04case) (fails [][3]string, problem string) {
+	obs, problem := c04runFile(c)
+	if problem != "" {
+		return nil, problem
+	}
+	if strings.HasPrefix(c.Writer, "sequence") && len(c.Sizes) == 0 {
+		return nil, ""
+	}
+	one := func(text []byte, which string, mate bool) {
+		switch c.Pre {
+		case "overwrite":
+			if bytes.Contains(text, []byte("#STALE#")) {
+				fails = append(fails, [3]string{which + "stale-content-kept",
+					fmt.Sprintf("the %d bytes of the existing file were not discarded: file is %q", len(c04stale), c04clip(text)), "file"})
+				return
+			}
+		case "append":
+			if !bytes.HasPrefix(text, c04stale) {
+				fails = append(fails, [3]string{which + "existing-content-lost", fmt.Sprintf("file is %q", c04clip(text)), "file"})
+				return
+			}
+			text = text[len(c04stale):]
+		}
+		if f, d := c04content(c, text, mate); f != "" {
+			fails = append(fails, [3]string{which + f, d, "history"})
+		}
+	}
+	one(obs.r1, "", false)
+	if c.Paired {
+		if !obs.r2exists {
+			fails = append(fails, [3]string{"R2:file-missing", "the file of the paired reads does not exist", "file"})
+		} else {
+			one(obs.r2, "R2:", true)
+		}
+	}
+	if obs.open > 0 {
+		fails = append(fails, [3]string{"descriptor-left-open", fmt.Sprintf("%d descriptor(s) still open on the output file(s) when WaitForLastPipe returned", obs.open), "any"})
+	}
+	return fails, ""
+}
+
+// ---------------------------------------------------------------- content family: strings needing escapes
+
+var c04tokens = []string{"\\", "u", "0041", "\"", "\x01", "\x1f", "\n", "\t", "<&>", "é", ",", "x", " ", "}"}
+
+var c04places = []string{"value", "key", "definition", "id"}
+
+// c04valueClass names what in the value is known to matter to an encoder.
+func c04valueClass(v string) string {
+	ctl := false
+	for _, ch := range v {
+		if ch < 0x20 && ch != '\n' && ch != '\t' {
+			ctl = true
+		}
+	}
+	bu := strings.Contains(v, "\\u")
+	switch {
+	case ctl && bu:
+		return "control-char+backslash-u"
+	case ctl:
+		return "control-char"
+	case bu:
+		return "backslash-u"
+	}
+	return "other-characters"
+}
+
+// c04preflight runs the real formatter of the writer on every batch in a goroutine of its own, so
+// that a panic or a log.Fatal of the formatter is an observed outcome instead of the death of the
+// shard. Returns the concatenated document as the writer would frame it.
+func c04preflight(c c04case) (doc []byte, crash string) {
+	batches, _, _ := c04batches(c)
+	opt := MakeOptions(c04caseOpts(c))
+	done := make(chan struct{})
+	go func() {
+		defer close(done)
+		defer func() {
+			if r := recover(); r != nil {
+				if e, ok := r.(*log.Entry); ok {
+					crash = "panic: " + e.Message
+				} else {
+					crash = fmt.Sprintf("panic: %v", r)
+				}
+			}
+		}()
+		var buf bytes.Buffer
+		switch c.Writer {
+		case "json":
+			buf.WriteString("[\n")
+			first := true
+			for _, b := range batches {
+				t := FormatJSONBatch(b)
+				if len(t) == 0 {
+					continue
+				}
+				if !first {
+					buf.WriteString(",\n")
+				}
+				buf.Write(t)
+				first = false
+			}
+			buf.WriteString("\n]\n")
+		case "csv":
+			for _, b := range batches {
+				buf.Write(FormatCVSBatch(b, opt))
+			}
+		}
+		doc = buf.Bytes()
+	}()
+	<-done
+	select {
+	case f := <-c04fatalCh:
+		crash = "fatal: " + f
+	default:
+	}
+	return
 }
 
 // ---------------------------------------------------------------- reference model of the buffer
@@ -610,11 +1156,62 @@ func c04valid(c c04case) error {
 		return fmt.Errorf("arrival and sizes differ in length")
 	}
 	seen := map[int]bool{}
-	for _, a := range c.Arrival {
+	total := 0
+	for i, a := range c.Arrival {
 		if a < 0 || a >= len(c.Sizes) || seen[a] {
 			return fmt.Errorf("arrival is not a permutation")
 		}
 		seen[a] = true
+		if c.Sizes[i] < 0 {
+			return fmt.Errorf("negative batch size")
+		}
+		total += c.Sizes[i]
+	}
+	switch c.Family {
+	case "":
+	case "file":
+		if c04entryName(c.Writer) == "" {
+			return fmt.Errorf("no file entry point for writer %q", c.Writer)
+		}
+		if c.Pre != "fresh" && c.Pre != "overwrite" && c.Pre != "append" {
+			return fmt.Errorf("pre must be fresh, overwrite or append")
+		}
+	case "zerolen":
+		if len(c.Zero) != total {
+			return fmt.Errorf("zero must have one entry per record")
+		}
+		if c.Writer == "csv-auto" {
+			return fmt.Errorf("zerolen is not defined for csv-auto")
+		}
+		if !c.Skip && c.Writer != "json" && c.Writer != "csv" {
+			return fmt.Errorf("a zero-length record without OptionsSkipEmptySequence ends the program by design (log.Fatal): not a case")
+		}
+	case "content":
+		if c.Writer != "json" && c.Writer != "csv" {
+			return fmt.Errorf("content is defined for json and csv")
+		}
+		if !utf8.ValidString(c.Value) || strings.Contains(c.Value, "\r") {
+			return fmt.Errorf("value must be valid UTF-8 without carriage return")
+		}
+		ok := false
+		for _, p := range c04places {
+			ok = ok || p == c.Place
+		}
+		if !ok {
+			return fmt.Errorf("unknown place %q", c.Place)
+		}
+	case "csvopt":
+		if c.Writer != "csv" || c.Csv == nil {
+			return fmt.Errorf("csvopt needs writer csv and a csv spec")
+		}
+		if len(c04csvModelHeader(c)) < 2 {
+			return fmt.Errorf("fewer than 2 declared columns")
+		}
+	default:
+		return fmt.Errorf("unknown family %q", c.Family)
+	}
+	if c.Family != "zerolen" && len(c.Zero) > 0 {
+		return fmt.Errorf("zero only with family zerolen")
 	}
 	return nil
 }
@@ -628,18 +1225,76 @@ func c04has2(sv []int) bool {
 	return false
 }
 
+// c04sizeVectors: every vector of n batch sizes over 0..maxv.
+func c04sizeVectors(n, maxv int) [][]int {
+	var out [][]int
+	v := make([]int, n)
+	var rec func(i int)
+	rec = func(i int) {
+		if i == n {
+			out = append(out, append([]int{}, v...))
+			return
+		}
+		for x := 0; x <= maxv; x++ {
+			v[i] = x
+			rec(i + 1)
+		}
+	}
+	rec(0)
+	return out
+}
+
+func c04sum(v []int) int {
+	t := 0
+	for _, x := range v {
+		t += x
+	}
+	return t
+}
+
+// c04bitVectors: every 0/1 vector of length k.
+func c04bitVectors(k int) [][]int {
+	return c04sizeVectors(k, 1)
+}
+
 // ---------------------------------------------------------------- driver
 
 func TestVerifC04(t *testing.T) {
 	c04installExit()
 	r := verifkit.New("C04")
 	defer r.Write()
-
-	eval := func(c c04case) {
-		if c04poisoned != "" {
-			r.Cap("cases skipped after a " + c04poisoned + " (global pipe registry unusable in this process)")
-			return
+	defer func() {
+		if c04tmpDir != "" {
+			os.RemoveAll(c04tmpDir)
 		}
+	}()
+
+	// bounds: n <= nFull with every size vector over {0,1,2}; n <= nSub with every vector over {0,1}
+	// (every subset of empty batches); n <= nFew with at most 2 empty batches.
+	nFull, nSub, nFew := 5, 5, 5
+	// the modes without Close (all writers; through gzip too) run for n <= nModes
+	nModes := 4
+	// families: file entry points n <= nFile, zero-length records n <= nZero, strings needing escapes
+	// of <= kReal tokens through the writers and <= kFmt tokens through their formatters
+	nFile, nZero, kReal, kFmt := 3, 3, 2, 3
+	if verifkit.Thorough() {
+		nFull, nSub, nFew = 6, 6, 7
+		nModes = 5
+		nFile, nZero, kReal, kFmt = 4, 4, 3, 4
+	}
+
+	poison := func(c c04case, name, problem, class, mode string) {
+		pc := problem
+		if i := strings.Index(pc, ":"); i >= 0 {
+			pc = pc[:i]
+		}
+		c04poisoned = pc
+		r.Violate(fmt.Sprintf("%s/%s:%s", name, pc, class),
+			fmt.Sprintf("%s (%s) arrival=%v sizes=%v: %s", name, mode, c.Arrival, c.Sizes, problem), c)
+	}
+
+	// original family: one arrival history on the in-memory sink, every mode
+	evalHistory := func(c c04case) {
 		n := len(c.Sizes)
 		emitted, maxDrain, _ := c04model(c.Arrival)
 		if len(emitted) != n {
@@ -659,8 +1314,14 @@ func TestVerifC04(t *testing.T) {
 			r.Count("drain>=2", 1)
 		}
 		modes := []string{c04plain, c04gzip}
-		if c.Writer == "json" || c.Writer == "csv" || c.Writer == "csv-auto" {
+		if c.Writer == "json" || c.Writer == "csv" || c.Writer == "csv-auto" || n <= nModes {
 			modes = append(modes, c04noclose)
+		}
+		if n <= nModes {
+			modes = append(modes, c04gznoclose)
+		}
+		if c.Mode != "" {
+			modes = []string{c.Mode}
 		}
 		plainFails := map[string]bool{}
 		for _, mode := range modes {
@@ -668,13 +1329,7 @@ func TestVerifC04(t *testing.T) {
 			r.Count("runs:"+mode, 1)
 			r.Trans(int64(n))
 			if problem != "" {
-				pc := problem
-				if i := strings.Index(pc, ":"); i >= 0 {
-					pc = pc[:i]
-				}
-				c04poisoned = pc
-				r.Violate(fmt.Sprintf("%s/%s:%s", c04writerName(c.Writer), pc, class),
-					fmt.Sprintf("%s (%s) arrival=%v sizes=%v: %s", c04writerName(c.Writer), mode, c.Arrival, c.Sizes, problem), c)
+				poison(c, c04writerName(c.Writer), problem, class, mode)
 				return
 			}
 			if len(fails) == 0 {
@@ -688,10 +1343,122 @@ func TestVerifC04(t *testing.T) {
 					if plainFails[f[0]] {
 						continue // same failure as the plain run of the same history: one key
 					}
-					key += "[" + mode + "-only]"
+					// a failure of one mode only does not depend on the history class
+					key = fmt.Sprintf("%s/%s[%s-only]", c04writerName(c.Writer), f[0], mode)
 				}
 				r.Violate(key, fmt.Sprintf("%s (%s) arrival=%v sizes=%v: %s", c04writerName(c.Writer), mode, c.Arrival, c.Sizes, f[1]), c)
 			}
+		}
+	}
+
+	// families on the sink with content-related options (zerolen, csvopt, content through the writer)
+	evalSink := func(c c04case, class string) {
+		r.Eval(1)
+		r.Count("family:"+c.Family, 1)
+		fails, problem := c04check(c, c04plain)
+		r.Trans(int64(len(c.Sizes)))
+		if problem != "" {
+			poison(c, c04writerName(c.Writer), problem, class, c04plain)
+			return
+		}
+		if len(fails) == 0 {
+			r.Count("ok:"+c.Family, 1)
+		}
+		for _, f := range fails {
+			r.Violate(fmt.Sprintf("%s/%s:%s", c04writerName(c.Writer), f[0], class),
+				fmt.Sprintf("%s arrival=%v sizes=%v zero=%v skip=%v value=%q place=%s csv=%+v: %s", c04writerName(c.Writer), c.Arrival, c.Sizes, c.Zero, c.Skip, c.Value, c.Place, c.Csv, f[1]), c)
+		}
+	}
+
+	evalFile := func(c c04case) {
+		r.Eval(1)
+		r.Count("family:file", 1)
+		r.Count("file:"+c.Pre, 1)
+		if c.Paired {
+			r.Count("file:paired", 1)
+		}
+		if c.Workers > 1 {
+			r.Count("file:3-workers(schedules sampled)", 1)
+		}
+		name := c04entryName(c.Writer)
+		if c.Paired {
+			name += "[paired]"
+		}
+		fails, problem := c04checkFile(c)
+		r.Trans(int64(len(c.Sizes)))
+		if problem != "" {
+			poison(c, name, problem, c.Pre+","+c04inputClass(c), "file")
+			return
+		}
+		if len(fails) == 0 {
+			r.Count("ok:file", 1)
+		}
+		for _, f := range fails {
+			key := fmt.Sprintf("%s/%s:%s", name, f[0], c04inputClass(c))
+			switch f[2] {
+			case "file":
+				key = fmt.Sprintf("%s/%s:%s", name, f[0], c.Pre)
+			case "any":
+				key = fmt.Sprintf("%s/%s", name, f[0])
+			}
+			r.Violate(key,
+				fmt.Sprintf("%s file=%s paired=%v workers=%d arrival=%v sizes=%v: %s", name, c.Pre, c.Paired, c.Workers, c.Arrival, c.Sizes, f[1]), c)
+		}
+	}
+
+	// content: the formatter first (a crash of the formatter is an outcome, not the death of the
+	// shard), then - real = true - the whole writer
+	evalContent := func(c c04case, real bool) {
+		where := "annotation"
+		if c.Place == "id" {
+			where = "id"
+		}
+		class := c04valueClass(c.Value) + "-in-" + where
+		r.Count("class:"+class, 1)
+		doc, crash := c04preflight(c)
+		r.Count("family:content(formatter)", 1)
+		if crash != "" {
+			r.Eval(1)
+			if strings.HasPrefix(crash, "fatal") {
+				c04poisoned = "fatal"
+			}
+			kind := crash
+			if i := strings.Index(kind, ":"); i >= 0 {
+				kind = kind[:i]
+			}
+			r.Violate(fmt.Sprintf("%s/formatter-%s:%s", c04writerName(c.Writer), kind, class),
+				fmt.Sprintf("%s: formatting a record whose %s is %q: %s", c04writerName(c.Writer), c.Place, c.Value, crash), c)
+			return
+		}
+		if real {
+			evalSink(c, class)
+			return
+		}
+		r.Eval(1)
+		if f, d := c04content(c, doc, false); f != "" {
+			r.Violate(fmt.Sprintf("%s/%s:%s", c04writerName(c.Writer), f, class),
+				fmt.Sprintf("%s (formatter output framed as the writer does) %s=%q: %s", c04writerName(c.Writer), c.Place, c.Value, d), c)
+		} else {
+			r.Count("ok:content(formatter)", 1)
+		}
+	}
+
+	eval := func(c c04case) {
+		if c04poisoned != "" {
+			r.Cap("cases skipped after a " + c04poisoned + " (global pipe registry unusable in this process)")
+			return
+		}
+		switch c.Family {
+		case "":
+			evalHistory(c)
+		case "file":
+			evalFile(c)
+		case "zerolen":
+			evalSink(c, "zero-length-records,"+c04inputClass(c))
+		case "csvopt":
+			evalSink(c, "column-options")
+		case "content":
+			evalContent(c, c.Mode != "formatter")
 		}
 	}
 
@@ -707,20 +1474,25 @@ func TestVerifC04(t *testing.T) {
 		return
 	}
 
-	// bounds: n <= nFull with every size vector over {0,1,2}; n <= nSub with every vector over {0,1}
-	// (every subset of empty batches); n <= nFew with at most 2 empty batches.
-	nFull, nSub, nFew := 5, 5, 5
-	if verifkit.Thorough() {
-		nFull, nSub, nFew = 6, 6, 7
-	}
 	r.Bound("n_batches_all_size_vectors_0_1_2", nFull)
 	r.Bound("n_batches_all_subsets_of_empty_batches", nSub)
 	r.Bound("n_batches_at_most_2_empty_batches", nFew)
+	r.Bound("n_batches_modes_without_close", nModes)
+	r.Bound("n_batches_file_entry_points", nFile)
+	r.Bound("n_batches_zero_length_records", nZero)
+	r.Bound("tokens_per_string_through_writer", kReal)
+	r.Bound("tokens_per_string_through_formatter", kFmt)
+	r.Bound("tokens", c04tokens)
 	r.Bound("formatting_workers", 1)
-	r.Bound("modes", "plain+close, gzip+close, (json,csv) plain without close")
+	r.Bound("formatting_workers_file_entry_points", "1 (arrival order forced) and 3 (push order forced, arrival order left to the Go scheduler: sampled)")
+	r.Bound("modes", "plain+close, gzip+close, plain without close, gzip without close")
 	r.RequireNonVacuous("out_of_order_arrival")
 	r.RequireNonVacuous("drain>=2")
 	r.RequireNonVacuous("class:out-of-order+empty-batch")
+	r.RequireNonVacuous("file:paired")
+	r.RequireNonVacuous("family:zerolen")
+	r.RequireNonVacuous("family:csvopt")
+	r.RequireNonVacuous("family:content(formatter)")
 
 	sizeVectors := func(n int) [][]int {
 		var out [][]int
@@ -728,32 +1500,150 @@ func TestVerifC04(t *testing.T) {
 		if n <= nFull {
 			maxv = 2
 		}
-		v := make([]int, n)
-		var rec func(i int)
-		rec = func(i int) {
-			if i == n {
-				empties := 0
-				for _, x := range v {
-					if x == 0 {
-						empties++
-					}
+		for _, v := range c04sizeVectors(n, maxv) {
+			empties := 0
+			for _, x := range v {
+				if x == 0 {
+					empties++
 				}
-				if n > nSub && empties > 2 {
-					return
-				}
-				out = append(out, append([]int{}, v...))
-				return
 			}
-			for x := 0; x <= maxv; x++ {
-				v[i] = x
-				rec(i + 1)
+			if n > nSub && empties > 2 {
+				continue
 			}
+			out = append(out, v)
 		}
-		rec(0)
 		return out
 	}
 
 	k := 0
+	stopped := func() bool {
+		if c04poisoned != "" {
+			r.Cap("enumeration stopped after a " + c04poisoned)
+			return true
+		}
+		return r.Expired()
+	}
+
+	// ---- families of the audit first (small), then the arrival histories by increasing n
+
+	// file-name entry points
+	for n := 0; n <= nFile; n++ {
+		svs := c04sizeVectors(n, 2)
+		verifkit.Permutations(n, func(p []int) {
+			for _, sv := range svs {
+				for _, w := range []string{"fasta", "fastq", "json", "csv", "sequence", "sequence+q"} {
+					if strings.HasPrefix(w, "sequence") && n == 0 {
+						continue
+					}
+					for _, pre := range []string{"fresh", "overwrite", "append"} {
+						for _, paired := range []bool{false, true} {
+							for _, workers := range []int{1, 3} {
+								if r.Mine(k) && !r.Expired() {
+									eval(c04case{Writer: w, Arrival: append([]int{}, p...), Sizes: sv, Family: "file", Pre: pre, Paired: paired, Workers: workers})
+								}
+								k++
+							}
+						}
+					}
+				}
+			}
+		})
+		if stopped() {
+			return
+		}
+	}
+
+	// zero-length sequences
+	for n := 1; n <= nZero; n++ {
+		svs := c04sizeVectors(n, 2)
+		verifkit.Permutations(n, func(p []int) {
+			for _, sv := range svs {
+				for _, zv := range c04bitVectors(c04sum(sv)) {
+					if c04sum(zv) == 0 {
+						continue // no zero-length record: the original family
+					}
+					for _, w := range []string{"fasta", "fastq", "sequence", "sequence+q", "json", "csv"} {
+						skips := []bool{true}
+						if w == "json" || w == "csv" {
+							skips = []bool{false, true}
+						}
+						for _, skip := range skips {
+							if r.Mine(k) && !r.Expired() {
+								eval(c04case{Writer: w, Arrival: append([]int{}, p...), Sizes: sv, Family: "zerolen", Zero: zv, Skip: skip})
+							}
+							k++
+						}
+					}
+				}
+			}
+		})
+		if stopped() {
+			return
+		}
+	}
+
+	// CSV column options (one out-of-order history with a drain: batches of 1 and 2 records)
+	for bits := 0; bits < 64; bits++ {
+		for _, keys := range [][]string{{}, {"k1"}, {"k1", "absent"}, {"k,2", "k1"}} {
+			for _, na := range []string{"NA", "", "n,a"} {
+				sp := &c04csvSpec{Id: bits&1 != 0, Count: bits&2 != 0, Taxon: bits&4 != 0, Definition: bits&8 != 0,
+					Sequence: bits&16 != 0, Quality: bits&32 != 0, Keys: keys, NA: na}
+				c := c04case{Writer: "csv", Arrival: []int{1, 0}, Sizes: []int{1, 2}, Family: "csvopt", Csv: sp}
+				if len(c04csvModelHeader(c)) < 2 {
+					continue // a single column may give blank lines, which CSV readers skip: not constrained
+				}
+				if r.Mine(k) && !r.Expired() {
+					eval(c)
+				}
+				k++
+			}
+		}
+	}
+	if stopped() {
+		return
+	}
+
+	// strings needing escapes
+	for ntok := 0; ntok <= kFmt; ntok++ {
+		idx := make([]int, ntok)
+		for {
+			var sb strings.Builder
+			for _, i := range idx {
+				sb.WriteString(c04tokens[i])
+			}
+			v := sb.String()
+			for _, w := range []string{"json", "csv"} {
+				for _, place := range c04places {
+					if r.Mine(k) && !r.Expired() {
+						c := c04case{Writer: w, Arrival: []int{1, 0}, Sizes: []int{1, 1}, Family: "content", Value: v, Place: place}
+						if ntok > kReal {
+							c.Mode = "formatter"
+						}
+						eval(c)
+					}
+					k++
+				}
+			}
+			// next tuple
+			j := ntok - 1
+			for j >= 0 {
+				idx[j]++
+				if idx[j] < len(c04tokens) {
+					break
+				}
+				idx[j] = 0
+				j--
+			}
+			if j < 0 {
+				break
+			}
+		}
+		if stopped() {
+			return
+		}
+	}
+
+	// arrival histories
 	sampled := 0
 	for n := 0; n <= nFew; n++ {
 		svs := sizeVectors(n)
